@@ -208,7 +208,7 @@ def const_str(v):
 
 
 def version_const(v):
-    while v and v[0] in ("constref", "ref*"):
+    while v and v[0] in ("constref", "ref*", "clone"):
         v = v[1]
     if v and v[0] == "tuple" and len(v[1]) == 2:
         a, b = absint.const_of(v[1][0]), absint.const_of(v[1][1])
